@@ -401,10 +401,13 @@ fn history(cx: &mut Ctx, cell: &CellDef, ops: &[Op], force_coq: bool, allow_coq:
     // 2 LOUDS records, 3 critical-bit stub, 4 double array, 5 hash-map trie (sparse cells, second model)
     let slots: &[usize] = match kind { Kind::Patricia => &[0], Kind::Sparse => &[1, 5], Kind::Louds => &[2], Kind::CritBit => &[3], Kind::DoubleArray => &[4], _ => &[] };
     let modelled = !slots.is_empty() && cell.status != "S-only";
-    // evaluating the model's 256-way DFS over several hundred nodes inside Coq is slow: keys beyond 100 bytes are oracle-only
-    let short_enough = force_coq || ops.iter().all(|(_, k)| k.len() <= 100);
-    if modelled && coq_ok && short_enough && obs.len() == ops.len() {
+    // evaluating the node-vector model's 256-way DFS over several hundred nodes inside Coq is slow: keys beyond 100 bytes are
+    // oracle-only there; the double-array model (finite maps) and the hash-map model replay every generated length (<= 301)
+    let maxlen = ops.iter().map(|(_, k)| k.len()).max().unwrap_or(0);
+    if modelled && coq_ok && obs.len() == ops.len() {
         for &slot in slots {
+            let short_enough = force_coq || maxlen <= if slot >= 4 { 301 } else { 100 };
+            if !short_enough { continue; }
             if !(force_coq || (allow_coq && cx.used[slot] < cx.budget[slot])) { continue; }
             cx.used[slot] += 1;
             let ops_coq: Vec<String> = ops.iter().enumerate().map(|(i, (o, k))| format!("({}, {})", if unavailable.contains(&i) { 9 } else { *o }, coq_key(k))).collect();
